@@ -35,6 +35,8 @@ impl Tier {
 
 #[derive(Clone, Debug)]
 pub struct RunInput {
+    /// index of the run within its batch (used by scenarios that enumerate a finite space)
+    pub index: u64,
     pub seed: u64,
     pub tier: Tier,
     pub overrides: BTreeMap<String, i64>,
@@ -45,6 +47,7 @@ pub struct RunInput {
 impl RunInput {
     pub fn new(seed: u64, tier: Tier) -> Self {
         Self {
+            index: 0,
             seed,
             tier,
             overrides: BTreeMap::new(),
